@@ -7,6 +7,8 @@ import (
 	"fmt"
 	"os"
 	"path/filepath"
+
+	"github.com/FollowTheProcess/spok/simhook"
 )
 
 const (
@@ -63,14 +65,17 @@ func Init(path string, names ...string) error {
 	if err := os.MkdirAll(filepath.Dir(path), dirPerms); err != nil {
 		return err
 	}
+	simhook.Point("cache.init.after_mkdir", "")
 
 	if err := cache.Dump(path); err != nil {
 		return err
 	}
+	simhook.Point("cache.init.after_dump", "")
 
 	if err := makeGitIgnore(filepath.Dir(path)); err != nil {
 		return err
 	}
+	simhook.Point("cache.init.after_gitignore", "")
 
 	return makeCacheDirTag(filepath.Dir(path))
 }
@@ -82,6 +87,14 @@ func (c *Cache) Dump(path string) error {
 		return err
 	}
 
+	if simhook.Enabled {
+		if done, hookErr := simhook.WriteFile("cache.dump", path, contents, filePerms); done {
+			if hookErr != nil {
+				return fmt.Errorf("Could not write spok cache at %q: %s", path, hookErr)
+			}
+			return nil
+		}
+	}
 	err = os.WriteFile(path, contents, filePerms)
 	if err != nil {
 		return fmt.Errorf("Could not write spok cache at %q: %s", path, err)
